@@ -70,6 +70,16 @@ func TestC06Grid(t *testing.T) {
 		})
 }
 
+func TestC07Enum(t *testing.T) {
+	allCuts := envInt("VERIF_DEPTH", 0) > 0
+	what := "one-shot and one cut in the middle"
+	if allCuts {
+		what = "every single cut"
+	}
+	C07Block.RunShards(t, "every small header block: one header over name kind x blank before ':' x whitespace/fold after it x value shape x trailing whitespace x CRLF/LF/CR, two headers over a reduced product; x blank-line kind x header capacity {64, 1, none} x {hb nil, typed}; "+what,
+		true, 32, func(s int, emit func(CaseHdrBlock) bool) { enumHdrBlocks(allCuts, s, 32, emit) })
+}
+
 func TestC09Rapid(t *testing.T) { C09NA.RunRapid(t) }
 
 func TestC09Enum(t *testing.T) {
